@@ -64,7 +64,7 @@ def uw(cfg, nmain=6):
           "do_one_pass.19:%d" % (walk + 1), "do_one_pass.14:%d" % (maxt + 1),
           # -DDEBUGFS: J_ASSERT is assert(), not a do-while(0): the two real loops are numbered one lower
           "do_one_pass.18:%d" % (walk + 1), "do_one_pass.13:%d" % (maxt + 1), "count_tags.0:%d" % (maxt + 1),
-          "calc_chksums.1:%d" % (maxt + 1), "scan_revoke_records.0:%d" % (maxrev + 1)]
+          "calc_chksums.1:%d" % (maxt + 1), "calc_chksums.0:%d" % (maxt + 1), "scan_revoke_records.0:%d" % (maxrev + 1)]
     return l
 
 def rt_uw(nset, hs):
@@ -102,8 +102,9 @@ HARNESSES = [
          configs=cfgs([dict(Q, FEAT_64BIT=0, REF_MAXWALK=4),
                        dict(Q, FEAT_64BIT=1, REF_MAXWALK=4),
                        # checksummed journals: v1 (COMPAT_CHECKSUM, PASS_SCAN walks data blocks in calc_chksums), v2, v3
-                       dict(Q, FEAT_64BIT=0, FEAT_CSUM=1, REF_MAXWALK=4),
-                       dict(Q, FEAT_64BIT=0, FEAT_CSUM=1, FEAT_ASYNC=1, REF_MAXWALK=4),
+                       dict(Q, FEAT_64BIT=0, FEAT_CSUM=1, REF_MAXWALK=3),
+                       dict(Q, FEAT_64BIT=0, FEAT_CSUM=1, REF_MAXWALK=4, **T),
+                       dict(Q, FEAT_64BIT=0, FEAT_CSUM=1, FEAT_ASYNC=1, REF_MAXWALK=4, **T),
                        dict(Q, FEAT_64BIT=0, FEAT_CSUM=2, REF_MAXWALK=4),
                        dict(Q, FEAT_64BIT=1, FEAT_CSUM=3, REF_MAXWALK=4),
                        dict(Q, FEAT_64BIT=0, REF_MAXWALK=6, **T),
@@ -136,7 +137,11 @@ HARNESSES = [
                        dict(Q, FEAT_64BIT=0, START=4, B=40, REF_MAXWALK=3, _unwindset=RQ, **T),
                        dict(Q, FEAT_64BIT=1, START=1, B=40, REF_MAXWALK=3, _unwindset=RQ, **T),
                        dict(Q, FEAT_64BIT=0, B=40, REF_MAXWALK=3, _unwindset=RQ, **T),
-                       dict(Q, FEAT_64BIT=0, START=1, B=64, REF_MAXWALK=3, _unwindset=RQ, **T)]),
+                       dict(Q, FEAT_64BIT=0, START=1, B=64, REF_MAXWALK=3, _unwindset=RQ, **T),
+                       # checksummed journals (64-byte blocks: a commit header must fit); v2/v3: per-block tag checksums
+                       dict(Q, FEAT_64BIT=0, FEAT_CSUM=1, START=4, B=64, REF_MAXWALK=3, _unwindset=RQ, **T),
+                       dict(Q, FEAT_64BIT=0, FEAT_CSUM=2, START=1, B=64, REF_MAXWALK=3, _unwindset=RQ, **T),
+                       dict(Q, FEAT_64BIT=1, FEAT_CSUM=3, START=1, B=64, REF_MAXWALK=3, _unwindset=RQ, **T)]),
          unwind=3, cbmc_flags=FS, backends=["kissat", "default"], cap_quick=200,
          bound="journal of 6 blocks of 40 bytes (<= 3 tags per descriptor; thorough: 64 bytes, 6 tags), filesystem of 4 blocks, every byte "
                "symbolic; log walk <= 3 header blocks (two transactions); revoke set of 2 arbitrary (block, transaction) pairs; "
@@ -155,6 +160,14 @@ HARNESSES = [
          configs=cfgs([dict(Q, FEAT_64BIT=0, START=1, B=32, NFS=3, REF_MAXWALK=3, REF_MAXREV=1, REF_MAXRB=1, _unwindset=rm_uw(1))]),
          unwind=3, cbmc_flags=FS, backends=["kissat", "default"], cap_quick=300,
          bound="as recover; filesystem device split into volatile and durable stores"),
+    dict(name="dbg_protocol", src="dbg_protocol.c", defs=["DEBUGFS"],
+         cut_statics={"debugfs/journal.c": ["ext2fs_get_journal", "ext2fs_journal_load"]},
+         funcs=["ext2fs_run_ext3_journal", "recover_ext3_journal", "ext2fs_journal_release", "ext2fs_clear_recover",
+                "ext2fs_check_ext3_journal", "brelse", "ll_rw_block"],
+         unwind=4, unwindset=["main.%d:22" % i for i in range(6)] + ["vf_log.0:22", "jbd2_journal_recover.0:5", "ll_rw_block.0:3"],
+         backends=["default", "kissat"],
+         bound="0..3 replay writes; dirty/clean, read-only/read-write handle; outcome of journal load, recovery, re-open and final "
+               "journal check symbolic; journal on the filesystem channel or on its own channel"),
 ]
 MANIFEST = {
     "text": "Bounded-exhaustive differential check of JBD2 journal recovery (recovery.c / revoke.c, e2fsck and debugfs flavours) against a "
